@@ -55,6 +55,14 @@ func genC02(level int) []*CacheScen {
 				}
 			}
 		}
+		// the same pairs (a selection) on a cache with a history: grown, shrunk back, cleaned up once
+		for _, a := range []CIn{cSet, cGaS, cGaR, cGaD, cDelExp, cClear} {
+			for _, b := range []CIn{cGet, cSetTTL, cGoS, cCDel, cDelete, cDelExp, cRange} {
+				for _, ini := range []int{ILive, IExpired} {
+					add(&CacheScen{Rel: RelSS, NKeys: 2, Init: []int{ini, IAbsent}, Table: TPlain, Warm: true, Threads: [][]CIn{{con(a, 0)}, {con(b, 0)}}})
+				}
+			}
+		}
 		// bucket mates: one expired, the other written
 		for _, a := range []CIn{cSet, cDelete, cGoS, cDelExp, cGaD} {
 			for _, b := range []CIn{cSet, cDelete, cGoS, cGet} {
